@@ -147,6 +147,10 @@ def pool_case(draw, names, allow_feat=True, max_n=None, force_cand=None,
     if ent["sample_weight"] and not excl and draw(st.booleans()):
         opts["sample_weight"] = [
             _round2(draw(st.floats(0.1, 3))) for _ in range(n)]
+    # how the array-like arguments are handed over (ndarray / nested lists /
+    # integer-typed feature matrix where all features are integral)
+    opts["arg_style"] = draw(st.sampled_from(
+        ["ndarray", "ndarray", "ndarray", "list", "int_X"]))
     case = dict(entry=name, X=X, yid=yid, K=K, task=task, enc=enc,
                 cand=cand, batch_size=bs,
                 seed=draw(st.integers(0, 2**31 - 1)), opts=opts,
